@@ -21,7 +21,7 @@ P = {
   tech=TECH + " (tie H + G2); exact-arithmetic search for the unproved global clause", ref="DESIGN.md 6 C01"),
  "C02": dict(
   text="Full. For all segments, hot sets, depths and every tie: lineIntersects = 'closed segment meets half-open box' (over Q); findIntersectingQuadrants returns exactly the occupied children met, NoDup, in travel order (mutex and 'certain' shortcuts justified); by induction over levels the route is the NoDup list of occupied pixels met, strongly sorted by travel order, starting at the pixel of a and ending at the pixel of b, reversing with the segment — on any grid whose stored extent covers its pixels (FromTileMatrixSet-style grids qualify). C02_source_tie: containsPoint, getInfiniteQuadrant, the quadrantsToCheck table, oneIfRight/Top are regenerated from pointindex.go on every run and proved equal to the model. The polygon-level clause is decided by the exact correspondence and an independent exact-rational oracle.",
-  note="Trusted: Coq kernel+vm_compute; Index model with (x,y) addresses instead of Morton keys (justified by C17); cmpProducts' 128-bit arithmetic modelled as exact Z products (correspondence includes RD-sized operands); hypothesis hs <> [] and the root-extent condition are explicit.",
+  note="Trusted: Coq kernel+vm_compute; Index model with (x,y) addresses instead of Morton keys (justified by C17); cmpProducts' 128-bit arithmetic (int64 negation with wrap-around, uint64 conversion, bits.Mul64 high/low words), leavesRoomBelow and lineIntersects are no longer trusted: regenerated from source on every run (gen/LineGen.v) and proved equal to the model's exact Z definitions (C02_source_tie_lineIntersects: cmpProducts for every int64 a, c incl. -2^63 and 0 < b, d < 2^63; lineIntersects for ordinates in [-2^62, 2^62)); hypothesis hs <> [] and the root-extent condition are explicit.",
   tech=TECH + " (tie G2 + H) + independent exact-rational oracle for replay witnesses", ref="DESIGN.md 6 C02"),
  "C03": dict(
   text="Full at integer/rational level: centre formula min + k*S + S/2, every routed point is the centroid of the pixel of an input vertex, deviation bound against the ideal centre (exact above the deepest level / for even resolution, + half an integer unit 0.5e-10 otherwise: the literal bound is refuted by that half unit, below the tool's resolution). Source ties: getQuadrantExtentAndCentroid regenerated from pointindex.go (G2); validation and snapping both use slices.Max of the ids (CLI glue from the ASTs). Float conversion and DeviationStats' float arithmetic are an explicit envelope checked with exact rationals on all 7 built-in sets accepted by validation.",
